@@ -164,7 +164,11 @@ def run(rep, facts):
                     gens.add("NOTIFIED")
         return gens, set()
     m3 = common.must_dataflow(gs, frozenset(), eff3)
-    conv = [n for n in gs.all_nodes() if n.term["k"] == "call" and (gs.callee(n) or "").endswith("IntoFuture>::into_future")]
+    # the conversion of the wait group into the future that is handed out: IntoFuture::into_future, or a by-value method of the
+    # group introduced later that does the same (it is then held to the same obligations below)
+    conv = [n for n in gs.all_nodes() if n.term["k"] == "call" and not n.noise() and (
+        (gs.callee(n) or "").endswith("IntoFuture>::into_future") or
+        (facts.is_new_helper(gs.callee(n) or "") and facts.fns.get(gs.callee(n), {}).get("sig", "").startswith("fn(async_io::util::WaitGroup)")))]
     if len(conv) != 1:
         rep.undecidable("R14.3", "shutdown-conversion", "%d IntoFuture conversions in shutdown" % len(conv), sb.loc())
     for n in conv:
